@@ -447,6 +447,22 @@ def run(ctx):
                   'rewrite:replace-args', f.where(rep[0]), 'ReplaceContent(path, temp_path)')
         dominated_by(ctx, 'C08.O3', f, rep[0], lambda x: x['k'] == 'call' and x.get('name') == 'fclose',
                      'the temporary file is closed before it replaces the log', 'rewrite:replace-before-fclose')
+        # the last bytes reach the disk when the stream is closed: the close that precedes the replace is looked at, and
+        # when it fails the temporary file does not replace the log
+        closes = [x for x in f.calls('fclose') if f.dominates_ev(x, rep[0])]
+        for c in closes:
+            ctx.check('C08.O3', not c.get('disc'), f.name, 'rewrite:fclose-result-dropped', f.where(c),
+                      'the result of closing the temporary file is tested before it replaces the log')
+            for i, s2 in enumerate(f.blocks[c['_b']]['succ']):
+                if s2 is None:
+                    continue
+                if any(mentions_call(a, 'fclose') and ((p_ is True and '== -1' in dstr(a)) or (p_ is False and '== 0' in dstr(a)) or
+                                                       (p_ is True and dstr(strip(a)).startswith('fclose')) or
+                                                       (p_ is True and '!=' in dstr(a) and ' 0' in dstr(a)) or (p_ is True and '< 0' in dstr(a)))
+                       for k_, p_, a in f.edge_facts(c['_b'], i)):
+                    r = f.find_path(None, lambda x: x is rep[0], from_succ=s2)
+                    ctx.check('C08.O3', r is None, f.name, 'rewrite:replace-after-failed-fclose', f.where(c),
+                              'a failed close of the temporary file does not reach ReplaceContent', witness=None if r is None else {'blocks': r[0]})
         for w in f.calls('BuildLog::WriteEntry'):
             ctx.check('C08.O3', f.ev_reaches(w, rep[0]) and not f.ev_reaches(rep[0], w), f.name, 'rewrite:write-after-replace',
                       f.where(w), 'all entries are written before the replace')
@@ -467,6 +483,16 @@ def run(ctx):
                 bad = r
                 ctx.check('C08.O3', r is None, rcn.name, 'ReplaceContent:failure-ignored:%s' % e['name'], rcn.where(e),
                           'a failed %s makes ReplaceContent fail' % e['name'])
+    # a destination that does not exist (a log Load() removed because of a bad header) is no obstacle: every failure return
+    # behind the failed unlink is under "errno is not ENOENT" (or the unlink is only attempted for an existing file)
+    for e in un:
+        rets = [x for x in rcn.events('ret') if const_value(x.get('e')) == 0 and
+                fact_holds(rcn.facts_at(x), lambda a: mentions_call(a, e['name']), True)]
+        for x in rets:
+            ok = fact_holds(rcn.facts_at(x), lambda a: 'errno' in dstr(a) and '== 2' in dstr(a), False) or \
+                fact_holds(rcn.facts_at(e), lambda a: mentions_call(a, 'stat') or mentions_call(a, 'access'), None)
+            ctx.check('C08.O3', ok, rcn.name, 'ReplaceContent:missing-destination-is-an-error', rcn.where(x),
+                      'ReplaceContent fails because of the unlink only when errno is not ENOENT (a log removed while loading can still be rewritten)')
     # a generator command may itself rewrite .ninja_log (cmake runs `ninja -t restat/recompact`): the build log
     # is closed before every generator edge is started and reopened lazily by the next record
     bb = prog.fn('Builder::Build')
@@ -481,4 +507,4 @@ def run(ctx):
     ses = list(bb.calls('Builder::StartEdge'))
     ctx.check('C08.O3', okg and len(ses) >= 1, bb.name, 'generator:log-held-open', bb.loc,
               'Builder::Build tests the generator binding of the edge it is about to start and closes the build log first')
-    ctx.floor('C08.O3', 13)
+    ctx.floor('C08.O3', 18)
